@@ -35,6 +35,13 @@ impl Rng {
     /// a count (list length, repetition): usually uniform in lo..=hi, now and then a size beyond the
     /// usual range at which fixed-capacity buffers, 8/16-bit counters and 'small' fast paths change
     pub fn len(&mut self, lo: u64, hi: u64) -> usize {
+        // a constant of /repo's sources as a count (srcdict.rs): capacities, thresholds, widths
+        let cap = if crate::srcdict::focus() != crate::srcdict::Focus::None { 1100 } else { 300 };
+        if let Some(c) = crate::srcdict::int_le(self, cap, 64) {
+            if c >= lo {
+                return c as usize;
+            }
+        }
         if self.chance(1, 40) {
             const B: &[u64] = &[7, 8, 9, 15, 16, 17, 31, 32, 33, 64, 65, 100, 128, 129, 255, 256, 257];
             let b = *self.pick(B);
